@@ -160,7 +160,7 @@ func c04Color(r *h.RNG) string {
 
 func c04String(r *h.RNG) string {
 	q := r.Pick([]string{"\"", "'"})
-	body := r.Pick([]string{"a", "A b", "Times New Roman", "serif", "Sans-Serif", "inherit", "a  b", " a", "a ", "3d", "-x", "--x", "_a", "a-b c_d", "Foo Default", "é", "a.b", "a,b", "", " ", "x y z", "Arial", "Helvetica Neue", "monospace", "Initial", "a\\\nb", "a\\\r\nb\\\nc", "url(x)", "a)b", "it" + map[string]string{"\"": "'", "'": "\""}[q] + "s"})
+	body := r.Pick([]string{"a", "A b", "Times New Roman", "serif", "Sans-Serif", "inherit", "a  b", " a", "a ", "3d", "-x", "--x", "_a", "a-b c_d", "Foo Default", "é", "a.b", "a,b", "", " ", "x y z", "Arial", "Helvetica Neue", "monospace", "Initial", "a\\\nb", "a\\\r\nb\\\nc", "\\31\\\n2", "\\31 2", "a\\41", "url(x)", "a)b", "it" + map[string]string{"\"": "'", "'": "\""}[q] + "s"})
 	return q + body + q
 }
 
@@ -251,7 +251,7 @@ func c04FamilyItem(r *h.RNG) string {
 	case 0, 1, 2:
 		return c04String(r)
 	case 3:
-		return r.Pick([]string{"serif", "sans-serif", "Arial", "Helvetica Neue", "Times New Roman", "inherit", "-apple-system", "system-ui", "a b  c"})
+		return r.Pick([]string{"serif", "sans-serif", "Arial", "Helvetica Neue", "Times New Roman", "inherit", "-apple-system", "system-ui", "a b  c", "a\\31  b", "x\\41 y", "f\\6f o"})
 	}
 	return r.Pick([]string{"monospace", "Georgia", "var(--f)", "\"Font Awesome 5 Free\"", "'Segoe UI'", "\"3rd\"", "\"A\"", "\"a-\"", "\"-\"", "\"--a\"", "\"a b-\""})
 }
@@ -526,6 +526,17 @@ var c04Fixed = []c04Case{
 	{prop: "width", value: "1x000"},
 	{prop: "width", value: "1px\\000"},
 	{prop: "width", value: "100PX\\9", css2: true},
+	// a933f35: a hexadecimal escape is terminated by the white space that follows it
+	{prop: "font-family", value: "a\\31  b,c"},
+	{prop: "animation-name", value: "x\\41 y"},
+	{prop: "content", value: "\"\\31\\\n2\""},
+	{prop: "x", value: "a\\31  (b)"},
+	{prop: "grid-area", value: "\\31 a / b\\32  c"},
+	{prop: "width", value: "foo(1.0.5)"},
+	{prop: "width", value: "foo(a1.0)"},
+	{prop: "width", value: "foo(8.24E3-255)"},
+	{prop: "transform", value: "foo(1e1-+0.5)"},
+	{prop: "background", value: "linear-gradient(rgb(255,0,0)10%,blue)"},
 	// shapes the seeded changes of this property aim at
 	{prop: "box-shadow", value: "1px 2px 0 3px red"},
 	{prop: "box-shadow", value: "1px 2px 0px 3px,inset 0 0 0 1px #000"},
